@@ -11,7 +11,9 @@ between calls, covariance propagation, rank normalisation) is evaluated by Coq:
                          covariance is compared with tolerance 0 for short coarse streams, else K eps;
   tolerance route (fx) : arbitrary gyro / acc / dt / chunkings / batch sizes / dtypes; Coq evaluates the model
                          in 256-bit fixed point on the implementation's float inputs and increments and checks
-                         |model - impl| <= K eps scale.
+                         |model - impl| <= (32 + 4 N) eps scale (N = frames fed since construction).
+  Cases reach Coq as a flat stream of primitive 63-bit integer literals (Model/IMU.v [decode]): Z / Q
+  literals cost ~1 ms each to elaborate, primitive ones ~30 us.
 
 Independently of the Coq model, every scenario is also checked against the property's own statement:
 a sequential 50-digit mpmath recursion written from the property text (rot / vel / pos), one call vs
@@ -24,11 +26,12 @@ PID = 'C16'
 RULE = ('a scenario = one module object + a list of calls (chunks of one stream); exact route: gyro = 0, Hurwitz-unit '
         'rotations, dyadic data, dt = 2^-k: float64 == model over Q (tolerance 0 for rot/vel/pos); tolerance route: '
         'generic float inputs, model evaluated by Coq in 256-bit fixed point on the implementation\'s own increments, '
-        '|model-impl| <= (64+16 N) eps scale (N = frames since construction); every scenario also checked against a '
+        '|model-impl| <= (32+4 N) eps scale (N = frames since construction); every scenario also checked against a '
         'sequential mpmath recursion written from the property text, chunked-vs-single, rank equivalence, cov symmetric PSD; '
         'a scenario is non-trivial when it has >= 2 frames; distinct = distinct (route, dtype, B, chunking, flags, data hash)')
 EPS = {'float64': 2.0 ** -52, 'float32': 2.0 ** -23}
 KEY_COV = 'IMUPreintegrator.forward:cov:one-call-vs-chunks:F>=3'
+STATS = {'oracle': 0.0, 'chunks': 0.0}     # worst observed error / tolerance (margins recorded in the evidence)
 
 HURWITZ = []
 for _i in range(4):
@@ -48,71 +51,111 @@ def dyad(x):
     return f.numerator, f.denominator.bit_length() - 1
 
 
-class Lit:
-    def __init__(self, mode):
-        self.mode = mode
+class Enc:
+    """flat stream of 63-bit words read by Model/IMU.v [decode]: counts, flags, numbers.
+    a number x = (-1)^s m / 2^k is the two words (2 m + s, k + 1100)"""
+
+    def __init__(self):
+        self.w = []
+
+    def nat(self, n):
+        self.w.append(int(n))
+
+    def boo(self, b):
+        self.w.append(1 if b else 0)
 
     def num(self, x):
-        if self.mode == 'Q':
-            return qlit(x)
-        m, k = dyad(x)
-        assert k <= 250, ('value too fine for the fixed-point route', x)
-        return '(fxd %s %d)' % (('(%d)' % m) if m < 0 else str(m), k)
+        x = float(x)
+        if x == 0.0:
+            m, k = 0, 0
+        else:
+            mant, ex = math.frexp(abs(x))
+            m, k = int(mant * (1 << 53)), 53 - ex          # |x| = m / 2^k exactly
+            while m % 2 == 0:
+                m //= 2
+                k -= 1
+            if k > 250:        # finer than the fixed-point grid: nearest multiple of 2^-250 (error <= 2^-251)
+                m, k = int(round(Fraction(abs(x)) * (1 << 250))), 250
+        assert -1100 <= k <= 250 and 0 <= m < (1 << 61), x
+        self.w += [2 * m + (1 if x < 0 else 0), k + 1100]
 
     def v3(self, v):
-        return '(%s, %s, %s)' % tuple(self.num(x) for x in v)
+        assert len(v) == 3
+        for x in v:
+            self.num(x)
 
     def q(self, v):
-        return '(%s, %s)' % (self.v3(v[:3]), self.num(v[3]))
+        assert len(v) == 4
+        for x in v:
+            self.num(x)
 
     def m3(self, rows):
-        return '(%s, %s, %s)' % tuple(self.v3(r) for r in rows)
+        assert len(rows) == 3
+        for r in rows:
+            self.v3(r)
 
-    def mat(self, rows):
-        return coq_list(coq_list(self.num(x) for x in r) for r in rows)
+    def lst(self, items, item):
+        self.nat(len(items))
+        for x in items:
+            item(x)
 
     def tens(self, rank, data, item):
         """data: [B][F] items"""
+        self.nat(rank)
         if rank == 1:
-            return '(T1 %s)' % item(data[0][0])
-        if rank == 2:
-            return '(T2 %s)' % coq_list(item(x) for x in data[0])
-        return '(T3 %s)' % coq_list(coq_list(item(x) for x in row) for row in data)
-
-
-def b2c(b):
-    return 'true' if b else 'false'
-
-
-def case_lit(L, idx, sc, run, tols):
-    """one ecase literal; run = result of run_impl; tols = per call (tr, tv, tp, tc)"""
-    calls = []
-    for c, r, t in zip(sc['calls'], run['calls'], tols):
-        rk = c['ranks']
-        dt = L.tens(rk[0], c['dt'], L.num)
-        inc = L.tens(rk[1], r['inc'], L.q)
-        jr = L.tens(rk[1], r['jr'], L.m3)
-        acc = L.tens(rk[2], c['acc'], L.v3)
-        rot = 'None' if c.get('rot') is None else '(Some %s)' % L.tens(rk[3], c['rot'], L.q)
-        if r['out'] is None:
-            exp = 'None'
+            item(data[0][0])
+        elif rank == 2:
+            self.lst(data[0], item)
         else:
+            self.lst(data, lambda row: self.lst(row, item))
+
+    def case(self, idx, sc, run, tols):
+        self.nat(idx)
+        self.num(run['g'])
+        self.v3(run['cg'])
+        self.v3(run['ca'])
+        self.boo(sc['prop_cov'])
+        self.boo(sc['reset'])
+        self.v3(sc['pos'])
+        self.q(sc['rot'])
+        self.v3(sc['vel'])
+        triples = list(zip(sc['calls'], run['calls'], tols))     # no calls are recorded when the constructor raised
+        self.nat(len(triples))
+        for c, r, t in triples:
+            rk = c['ranks']
+            self.tens(rk[0], c['dt'], self.num)
+            self.tens(rk[1], r['inc'], self.q)
+            self.tens(rk[1], r['jr'], self.m3)
+            self.tens(rk[2], c['acc'], self.v3)
+            self.boo(c.get('rot') is not None)
+            if c.get('rot') is not None:
+                self.tens(rk[3], c['rot'], self.q)
             o = r['out']
-            items = []
-            for b in range(len(o['rot'])):
-                cov = 'None' if o['cov'] is None else '(Some %s)' % L.mat(o['cov'][b])
-                items.append('(%s, %s, %s, %s)' % (coq_list(L.q(x) for x in o['rot'][b]), coq_list(L.v3(x) for x in o['vel'][b]),
-                                                  coq_list(L.v3(x) for x in o['pos'][b]), cov))
-            exp = '(Some %s)' % coq_list(items)
-        tl = '(%s, %s, %s, %s)' % tuple(L.num(x) for x in t)
-        calls.append('((%s, %s, %s, %s, %s), %s, %s)' % (dt, inc, jr, acc, rot, exp, tl))
-    return '(%d%%nat, %s, %s, %s, %s, %s, (%s, %s, %s), %s)' % (
-        idx, L.num(run['g']), L.v3(run['cg']), L.v3(run['ca']), b2c(sc['prop_cov']), b2c(sc['reset']),
-        L.v3(sc['pos']), L.q(sc['rot']), L.v3(sc['vel']), coq_list(calls))
+            self.boo(o is not None)
+            if o is not None:
+                self.nat(len(o['rot']))
+                for b in range(len(o['rot'])):
+                    self.lst(o['rot'][b], self.q)
+                    self.lst(o['vel'][b], self.v3)
+                    self.lst(o['pos'][b], self.v3)
+                    self.boo(o['cov'] is not None)
+                    if o['cov'] is not None:
+                        self.lst(o['cov'][b], lambda row: self.lst(row, self.num))
+            for x in t:
+                self.num(x)
 
 
-HEADER = ('From PV Require Import Base.Num Base.Mat Model.LieGroup Model.IMU.\nFrom Coq Require Import List ZArith QArith Bool.\n'
-          'Import ListNotations.\n')
+def stream_file(mode, cases):
+    """cases: list of word lists -> text of a Coq file evaluating imu_bad_<mode>s on them"""
+    words = [len(cases)]
+    for c in cases:
+        words += c
+    chunks = [words[i:i + 2000] for i in range(0, len(words), 2000)]
+    return HEADER + 'Eval vm_compute in imu_bad_%ss %s.\n' % (mode, coq_list(coq_list(str(x) for x in ch) for ch in chunks))
+
+
+HEADER = ('From PV Require Import Base.Num Model.IMU.\nFrom Coq Require Import List Uint63.\nImport ListNotations.\n'
+          'Open Scope uint63_scope.\n')
 
 
 # ------------------------------------------------------------------------------------------------
@@ -166,20 +209,27 @@ def run_impl(pp, torch, sc):
         jr = inc.Jr()
         try:
             o = call_module(pp, torch, m, c, dtype)
-            out = dict(rot=o['rot'].tensor().tolist(), vel=o['vel'].tolist(), pos=o['pos'].tolist(),
-                       cov=None if o.get('cov') is None else o['cov'].tolist())
-            for k in ('rot', 'vel', 'pos'):
-                if len(torch.tensor(out[k]).shape) != 3:
-                    raise ValueError('output %s has shape %s' % (k, torch.tensor(out[k]).shape))
         except Exception as e:  # the call raised: the model must say None
-            out = None
+            o = None
             res.setdefault('errs', []).append(repr(e)[:200])
+        out = None
+        if o is not None:
+            Bn, Fn = len(c['dt']), len(c['dt'][0])
+            want = dict(rot=(Bn, Fn, 4), vel=(Bn, Fn, 3), pos=(Bn, Fn, 3))
+            got = {k: tuple(o[k].shape) for k in want}
+            if o.get('cov') is not None:
+                want['cov'], got['cov'] = (Bn, 9, 9), tuple(o['cov'].shape)
+            if got != want:
+                res.setdefault('shape_errs', []).append('outputs have shapes %s, documented (B, F, H) / (B, 9, 9) = %s' % (got, want))
+            else:
+                out = dict(rot=o['rot'].tensor().tolist(), vel=o['vel'].tolist(), pos=o['pos'].tolist(),
+                           cov=None if o.get('cov') is None else o['cov'].tolist())
         res['calls'].append(dict(out=out, inc=inc.tensor().tolist(), jr=jr.tolist()))
     return res
 
 
 # ------------------------------------------------------------------------------------------------
-# tolerances (absolute, per call): (64 + 16 N) eps * scale, N = frames fed since construction
+# tolerances (absolute, per call): (32 + 4 N) eps * scale, N = frames fed since construction
 def tolerances(sc, run, exact=False, cov_exact=False):
     eps = EPS[sc['dtype']]
     tols, N = [], 0
@@ -201,11 +251,11 @@ def tolerances(sc, run, exact=False, cov_exact=False):
             t_c = max(t_c, sum(abs(x) for x in c['dt'][b]))
         A += a_c
         T += t_c
-        K = (64 + 16 * N) * eps
+        K = (32 + 4 * N) * eps
         cm = 0.0
         if r['out'] is not None and r['out']['cov'] is not None:
             cm = max(abs(x) for M in r['out']['cov'] for row in M for x in row)
-        tc = 0.0 if cov_exact else 4 * K * max(cm, 1e-300)
+        tc = 0.0 if (cov_exact or cm == 0.0) else 4 * K * cm
         if exact:
             tols.append((0.0, 0.0, 0.0, tc))
         else:
@@ -300,9 +350,11 @@ def check_oracle(sc, run):
                 # quaternion sign: the implementation never re-normalises the sign, neither does the recursion
                 for name, got, exp, tol in (('rot', o['rot'][b][k], R, t[0]), ('vel', o['vel'][b][k], v, t[1]), ('pos', o['pos'][b][k], p, t[2])):
                     err = max(abs(float(got[i]) - float(exp[i])) for i in range(len(exp)))
-                    if not err <= 4 * tol:
+                    if tol > 0:
+                        STATS['oracle'] = max(STATS['oracle'], err / tol)
+                    if not err <= tol:
                         return ('call %d item %d frame %d: %s = %s, documented recursion gives %s (|diff| = %.3g > %.3g)'
-                                % (ci, b, k, name, [float(x) for x in got], [float(x) for x in exp], err, 4 * tol))
+                                % (ci, b, k, name, [float(x) for x in got], [float(x) for x in exp], err, tol))
     return None
 
 
@@ -320,7 +372,7 @@ def check_cov_valid(sc, run):
             if C.shape != (9, 9) or not np.isfinite(C).all():
                 return 'call %d item %d: covariance has shape %s / non-finite entries' % (ci, b, C.shape)
             sc_ = max(np.abs(C).max(), 1e-300)
-            tol = (64 + 16 * N) * eps * sc_ * 16
+            tol = (32 + 4 * N) * eps * sc_ * 16
             asym = np.abs(C - C.T).max()
             if not asym <= tol:
                 return 'call %d item %d: covariance not symmetric: max |C - C^T| = %.3g (max |C| = %.3g)' % (ci, b, asym, sc_)
@@ -358,9 +410,11 @@ def check_chunks(pp, torch, sc, run):
             chunked = sum((r['out'][key][b] for r in run['calls']), [])
             for k in range(Ftot):
                 err = max(abs(x - y) for x, y in zip(chunked[k], o1[key][b][k]))
-                if not err <= 4 * tol and bad is None:
+                if tol > 0:
+                    STATS['chunks'] = max(STATS['chunks'], err / (2 * tol))
+                if not err <= 2 * tol and bad is None:
                     bad = ('%s of item %d frame %d: chunks %s give %s, one call gives %s (|diff| = %.3g > %.3g)'
-                           % (key, b, k, [len(c['dt'][0]) for c in sc['calls']], chunked[k], o1[key][b][k], err, 4 * tol))
+                           % (key, b, k, [len(c['dt'][0]) for c in sc['calls']], chunked[k], o1[key][b][k], err, 2 * tol))
     badc = None
     if o1['cov'] is not None and run['calls'][-1]['out']['cov'] is not None:
         for b in range(len(o1['cov'])):
@@ -394,6 +448,8 @@ def property_check(pp, torch, sc, run=None):
     if run is None:
         run = run_impl(pp, torch, sc)
     res = []
+    if run.get('shape_errs'):
+        return [('IMUPreintegrator.forward:output-shape', run['shape_errs'][0])]
     w = check_oracle(sc, run)
     if w:
         res.append(('IMUPreintegrator.forward:differs-from-documented-recursion', w))
@@ -516,6 +572,7 @@ def run(ctx):
     wr = add(wsc, cov_exact=True)
     for key, what in property_check(pp, torch, wsc, wr):
         ctx.violation(key, what, slim(wsc))
+    add(single_call(wsc), cov_exact=True)      # the one-call side of the witness, also compared with the model exactly
 
     # ---------------------------------------------------------------- A: directed block (every branch of the model)
     G = 9.8125
@@ -560,7 +617,8 @@ def run(ctx):
         Fs = list(range(1, 201))
     else:
         Fs = [1, 2, 3, 4, 5, 6, 7, 8, 9, 11, 15, 16, 17, 23, 31, 32, 33, 47, 64, 65, 100, 127, 128, 129, 150, 199, 200]
-    COQ_COV_MAX = ctx.scale(24, 40)         # covariance through Coq up to this many frames per call (cost)
+    # covariance through Coq costs ~40 ms per frame and item: budget of item-frames per run
+    budget = [ctx.scale(700, 6000)]
     for F in Fs:
         reps = 1 if (F > 40 or not ctx.thorough) else 2
         for _ in range(reps):
@@ -570,7 +628,18 @@ def run(ctx):
             nch = rng.choice([1, 2, 2, 3, 5]) if F > 1 else 1
             chunks = split_sizes(rng, F, nch)
             sc = gen_float(rng, dtype, F, B, chunks, rng.random() < 0.4, rng.choice([0.0, 9.81007, 9.81007, 1.625]), style)
-            add(sc, coq=(max(chunks) <= COQ_COV_MAX or F in (100, 127, 200) or rng.random() < ctx.scale(0.15, 0.05)))
+            cost = F * B
+            coq = cost <= 60 and budget[0] >= cost
+            if coq:
+                budget[0] -= cost
+            add(sc, coq=coq)
+        if F > 24:
+            # long streams through Coq without the covariance (reset=True, prop_cov=False, one call): the prefix scan
+            dtype = 'float64' if rng.random() < 0.7 else 'float32'
+            add(gen_float(rng, dtype, F, rng.randint(1, 3), [F], rng.random() < 0.4, rng.choice([0.0, 9.81007]),
+                          rng.choice(['imu', 'wild']), reset=True, prop_cov=False))
+    # one long chunked stream with covariance through Coq
+    add(gen_float(rng, 'float64', 100, 1, [37, 1, 62], False, 9.81007, 'imu'))
     # one-frame calls repeated (pure history), float
     add(gen_float(rng, 'float64', 12, 2, [1] * 12, False, 9.81007, 'wild'))
     add(gen_float(rng, 'float32', 9, 1, [1] * 9, True, 9.81007, 'imu'))
@@ -582,17 +651,19 @@ def run(ctx):
 
     # ---------------------------------------------------------------- Coq: model on the same inputs
     files, index = [], {}
-    LQ, LF = Lit('Q'), Lit('fx')
     shards = {'Q': [], 'fx': []}
     for i, (sc, r, route, cov_exact, coq) in enumerate(scen):
         if not coq:
             continue
+        e = Enc()
         if route == 'exact':
-            shards['Q'].append((i, case_lit(LQ, i, sc, r, tolerances(sc, r, exact=True, cov_exact=cov_exact))))
+            e.case(i, sc, r, tolerances(sc, r, exact=True, cov_exact=cov_exact))
+            shards['Q'].append((i, e.w))
         else:
-            shards['fx'].append((i, case_lit(LF, i, sc, r, tolerances(sc, r))))
+            e.case(i, sc, r, tolerances(sc, r))
+            shards['fx'].append((i, e.w))
     for mode, items in shards.items():
-        # shards of roughly equal size (by literal length)
+        # shards of roughly equal cost (by stream length)
         items.sort(key=lambda t: -len(t[1]))
         nsh = max(1, min(NCPU, len(items)))
         bins = [[] for _ in range(nsh)]
@@ -604,7 +675,7 @@ def run(ctx):
         for j, bn in enumerate(bins):
             if bn:
                 name = '%s_%02d' % (mode, j)
-                files.append((name, HEADER + 'Eval vm_compute in imu_bad_%s %s.\n' % (mode, coq_list(lit for _, lit in bn))))
+                files.append((name, stream_file(mode, [w for _, w in bn])))
                 index[name] = [i for i, _ in bn]
     res = run_case_files(PID, files, timeout=1500)
     for name, (rc, out) in sorted(res.items()):
@@ -612,9 +683,14 @@ def run(ctx):
         if rc != 0 or len(ev) != 1:
             ctx.obligation_broken('correspondence-file:' + name, out[-1500:])
             continue
-        for i in parse_nat_list(ev[0]):
+        bad = parse_nat_list(ev[0])
+        if 1000000 in bad:
+            ctx.obligation_broken('correspondence-file:' + name, 'the case stream could not be decoded')
+            continue
+        for i in bad:
             sc = scen[i][0]
             ctx.mismatch('model-vs-impl:' + scen[i][2], dict(kind='scenario', scenario=sc))
+    ctx.notes.append('worst error / tolerance: implementation vs mpmath recursion %.3g, chunked vs one call %.3g' % (STATS['oracle'], STATS['chunks']))
     ctx.notes.append('%d scenarios (%d through Coq: %d exact, %d fixed-point), frame counts %s' % (
         len(scen), len(shards['Q']) + len(shards['fx']), len(shards['Q']), len(shards['fx']),
         'every F in 1..200' if ctx.thorough else 'spread incl. non powers of two'))
